@@ -543,4 +543,271 @@ theorem rules_correct : (rules : RuleSys (GNFA σ α) Rule).Correct validate whe
 
 end GNFA
 
+/-! ## PDA -/
+
+inductive PdaRule
+  | unknownInputSymbol | nondeterministic | unknownStackSymbol
+  | badInitial | badInitialStackSymbol | badFinal | badAcceptanceMode
+  deriving DecidableEq, Repr
+
+def PdaRule.kind : PdaRule → Gen.Err
+  | .unknownInputSymbol => .invalidSymbolError
+  | .nondeterministic => .nondeterminismError
+  | .unknownStackSymbol => .invalidSymbolError
+  | .badInitial => .invalidStateError
+  | .badInitialStackSymbol => .invalidSymbolError
+  | .badFinal => .invalidStateError
+  | .badAcceptanceMode => .invalidAcceptanceModeError
+
+def PdaRule.stage : PdaRule → Nat
+  | .unknownInputSymbol => 0
+  | .nondeterministic => 0
+  | .unknownStackSymbol => 0
+  | .badInitial => 1
+  | .badInitialStackSymbol => 2
+  | .badFinal => 3
+  | .badAcceptanceMode => 4
+
+/-- Which tail check fails first, together with the fact that the earlier ones passed. -/
+theorem pdaValidateTail_error (states : List σ) (stackSyms : List γ) (init : σ) (initStack : γ)
+    (finals : List σ) (mode : String) (e : Exn)
+    (h : pdaValidateTail states stackSyms init initStack finals mode = .error e) :
+    (init ∉ states ∧ e = .lib .invalidStateError) ∨
+    (init ∈ states ∧ initStack ∉ stackSyms ∧ e = .lib .invalidSymbolError) ∨
+    (init ∈ states ∧ initStack ∈ stackSyms ∧ (∃ q ∈ finals, q ∉ states) ∧ e = .lib .invalidStateError) ∨
+    (init ∈ states ∧ initStack ∈ stackSyms ∧ (∀ q ∈ finals, q ∈ states) ∧
+      mode ∉ Gen.Validate.pdaAcceptanceModes ∧ e = .lib .invalidAcceptanceModeError) := by
+  unfold pdaValidateTail at h
+  rcases Res.andThen_eq_error.mp h with h0 | ⟨ok0, h⟩
+  · obtain ⟨hc, rfl⟩ := guardE_eq_error.mp h0
+    exact Or.inl ⟨by simpa using hc, rfl⟩
+  have p0 : init ∈ states := by simpa using guardE_eq_ok.mp ok0
+  rcases Res.andThen_eq_error.mp h with h1 | ⟨ok1, h⟩
+  · obtain ⟨hc, rfl⟩ := guardE_eq_error.mp h1
+    exact Or.inr (Or.inl ⟨p0, by simpa using hc, rfl⟩)
+  have p1 : initStack ∈ stackSyms := by simpa using guardE_eq_ok.mp ok1
+  rcases Res.andThen_eq_error.mp h with h2 | ⟨ok2, h⟩
+  · obtain ⟨hc, rfl⟩ := guardE_eq_error.mp h2
+    exact Or.inr (Or.inr (Or.inl ⟨p0, p1, subsetB_eq_false.mp hc, rfl⟩))
+  have p2 : ∀ q ∈ finals, q ∈ states := subsetB_eq_true.mp (guardE_eq_ok.mp ok2)
+  obtain ⟨hc, rfl⟩ := guardE_eq_error.mp h
+  exact Or.inr (Or.inr (Or.inr ⟨p0, p1, p2, by simpa using hc, rfl⟩))
+
+namespace DPDA
+
+def rules : RuleSys (DPDA σ α γ) PdaRule where
+  kind := PdaRule.kind
+  stage := PdaRule.stage
+  Violates d
+    | .unknownInputSymbol => ∃ kv ∈ d.trans, ∃ e ∈ kv.2, ∃ a, e.1 = some a ∧ a ∉ d.syms
+    | .nondeterministic => ∃ kv ∈ d.trans, ¬ RowDet kv.2
+    | .unknownStackSymbol => ∃ kv ∈ d.trans, ∃ e ∈ kv.2, ∃ g ∈ akeys e.2, g ∉ d.stackSyms
+    | .badInitial => d.init ∉ d.states
+    | .badInitialStackSymbol => d.initStack ∉ d.stackSyms
+    | .badFinal => ∃ q ∈ d.finals, q ∉ d.states
+    | .badAcceptanceMode => d.mode ∉ Gen.Validate.pdaAcceptanceModes
+
+theorem wf_iff (d : DPDA σ α γ) : d.WF ↔ ∀ r, ¬ rules.Violates d r := by
+  constructor
+  · intro wf r
+    cases r <;> simp only [rules, not_exists, not_and, Classical.not_not]
+    · intro kv hkv e he a ha; exact wf.symsOk kv hkv e he a ha
+    · exact wf.det
+    · exact wf.stackOk
+    · exact wf.tail.initOk
+    · exact wf.tail.initStackOk
+    · exact wf.tail.finalsOk
+    · exact wf.tail.modeOk
+  · intro h
+    refine ⟨?_, ?_, ?_, ⟨?_, ?_, ?_, ?_⟩⟩
+    · have := h .unknownInputSymbol
+      simp only [rules, not_exists, not_and, Classical.not_not] at this
+      exact this
+    · simpa [rules] using h .unknownStackSymbol
+    · have := h .nondeterministic
+      simp only [rules, not_exists, not_and, Classical.not_not] at this
+      exact this
+    · simpa [rules] using h .badInitial
+    · simpa [rules] using h .badInitialStackSymbol
+    · simpa [rules] using h .badFinal
+    · simpa [rules] using h .badAcceptanceMode
+
+theorem lambdaSiblingsOk_error (paths : List (Option α × List (γ × (σ × List γ)))) (e : Exn)
+    (h : lambdaSiblingsOk paths = .error e) : ¬ RowDet paths ∧ e = .lib .nondeterminismError := by
+  unfold lambdaSiblingsOk at h
+  obtain ⟨en, hen, hg⟩ := firstErr_eq_error h
+  cases ha : en.1 with
+  | none => rw [ha] at hg; cases hg
+  | some a =>
+    rw [ha] at hg
+    obtain ⟨g, hgk, hg'⟩ := firstErr_eq_error hg
+    obtain ⟨hc, rfl⟩ := guardE_eq_error.mp hg'
+    refine ⟨fun hdet => ?_, rfl⟩
+    have := hdet en hen a ha g hgk
+    rw [← ahas_iff'] at this
+    simp only [Bool.not_eq_false'] at hc
+    exact this hc
+
+theorem validateRow_error (d : DPDA σ α γ) (paths : List (Option α × List (γ × (σ × List γ))))
+    (e : Exn) (h : d.validateRow paths = .error e) :
+    ((∃ en ∈ paths, ∃ a, en.1 = some a ∧ a ∉ d.syms) ∧ e = .lib .invalidSymbolError) ∨
+    (¬ RowDet paths ∧ e = .lib .nondeterminismError) ∨
+    ((∃ en ∈ paths, ∃ g ∈ akeys en.2, g ∉ d.stackSyms) ∧ e = .lib .invalidSymbolError) := by
+  unfold validateRow at h
+  obtain ⟨en, hen, hg⟩ := firstErr_eq_error h
+  rcases Res.andThen_eq_error.mp hg with h0 | ⟨_, hg⟩
+  · left
+    cases ha : en.1 with
+    | none => rw [ha] at h0; cases h0
+    | some a =>
+      rw [ha] at h0
+      obtain ⟨hc, rfl⟩ := guardE_eq_error.mp h0
+      exact ⟨⟨en, hen, a, ha, by simpa using hc⟩, rfl⟩
+  · obtain ⟨g, hgk, hg'⟩ := firstErr_eq_error hg
+    rcases Res.andThen_eq_error.mp hg' with h1 | ⟨_, h2⟩
+    · right; left
+      cases ha : en.1 with
+      | some a => rw [ha] at h1; cases h1
+      | none =>
+        rw [ha] at h1
+        exact lambdaSiblingsOk_error paths e h1
+    · right; right
+      obtain ⟨hc, rfl⟩ := guardE_eq_error.mp h2
+      exact ⟨⟨en, hen, g, hgk, by simpa using hc⟩, rfl⟩
+
+theorem rules_correct : (rules : RuleSys (DPDA σ α γ) PdaRule).Correct validate where
+  ok_iff d := (validate_eq_ok d).trans (wf_iff d)
+  error_kind d e h := by
+    unfold validate at h
+    rcases Res.andThen_eq_error.mp h with h0 | ⟨ok0, h⟩
+    · obtain ⟨kv, hkv, hrow⟩ := firstErr_eq_error h0
+      have early : ∀ r' : PdaRule, (rules : RuleSys (DPDA σ α γ) PdaRule).stage r' < 0 →
+          ¬ rules.Violates d r' := by
+        intro r' hr'; simp [rules] at hr'
+      rcases validateRow_error d kv.2 e hrow with ⟨⟨en, hen, a, ha, hna⟩, rfl⟩ | ⟨hnd, rfl⟩ | ⟨⟨en, hen, g, hg, hng⟩, rfl⟩
+      · exact ⟨.unknownInputSymbol, ⟨kv, hkv, en, hen, a, ha, hna⟩, rfl, early⟩
+      · exact ⟨.nondeterministic, ⟨kv, hkv, hnd⟩, rfl, early⟩
+      · exact ⟨.unknownStackSymbol, ⟨kv, hkv, en, hen, g, hg, hng⟩, rfl, early⟩
+    simp only [firstErr_eq_ok, validateRow_eq_ok] at ok0
+    have n0a : ¬ rules.Violates d .unknownInputSymbol := by
+      simp only [rules, not_exists, not_and, Classical.not_not]
+      intro kv hkv en hen a ha; exact (ok0 kv hkv).1 en hen a ha
+    have n0b : ¬ rules.Violates d .nondeterministic := by
+      simp only [rules, not_exists, not_and, Classical.not_not]
+      intro kv hkv; exact (ok0 kv hkv).2.2
+    have n0c : ¬ rules.Violates d .unknownStackSymbol := by
+      simp only [rules, not_exists, not_and, Classical.not_not]
+      intro kv hkv en hen g hg; exact (ok0 kv hkv).2.1 en hen g hg
+    rcases pdaValidateTail_error _ _ _ _ _ _ e h with ⟨a, rfl⟩ | ⟨p0, a, rfl⟩ | ⟨p0, p1, a, rfl⟩ | ⟨p0, p1, p2, a, rfl⟩
+    · refine ⟨.badInitial, a, rfl, ?_⟩
+      intro r' hr'; cases r' <;> simp [rules, PdaRule.stage] at hr' <;> assumption
+    · have nI : ¬ rules.Violates d .badInitial := fun h => h p0
+      refine ⟨.badInitialStackSymbol, a, rfl, ?_⟩
+      intro r' hr'; cases r' <;> simp [rules, PdaRule.stage] at hr' <;> assumption
+    · have nI : ¬ rules.Violates d .badInitial := fun h => h p0
+      have nS : ¬ rules.Violates d .badInitialStackSymbol := fun h => h p1
+      refine ⟨.badFinal, a, rfl, ?_⟩
+      intro r' hr'; cases r' <;> simp [rules, PdaRule.stage] at hr' <;> assumption
+    · have nI : ¬ rules.Violates d .badInitial := fun h => h p0
+      have nS : ¬ rules.Violates d .badInitialStackSymbol := fun h => h p1
+      have nF : ¬ rules.Violates d .badFinal := by
+        simp only [rules, not_exists, not_and, Classical.not_not]; exact p2
+      refine ⟨.badAcceptanceMode, a, rfl, ?_⟩
+      intro r' hr'; cases r' <;> simp [rules, PdaRule.stage] at hr' <;> assumption
+
+end DPDA
+
+namespace NPDA
+
+def rules : RuleSys (NPDA σ α γ) PdaRule where
+  kind := PdaRule.kind
+  stage := PdaRule.stage
+  Violates d
+    | .unknownInputSymbol => ∃ kv ∈ d.trans, ∃ e ∈ kv.2, ∃ a, e.1 = some a ∧ a ∉ d.syms
+    | .nondeterministic => False
+    | .unknownStackSymbol => ∃ kv ∈ d.trans, ∃ e ∈ kv.2, ∃ g ∈ akeys e.2, g ∉ d.stackSyms
+    | .badInitial => d.init ∉ d.states
+    | .badInitialStackSymbol => d.initStack ∉ d.stackSyms
+    | .badFinal => ∃ q ∈ d.finals, q ∉ d.states
+    | .badAcceptanceMode => d.mode ∉ Gen.Validate.pdaAcceptanceModes
+
+theorem wf_iff (d : NPDA σ α γ) : d.WF ↔ ∀ r, ¬ rules.Violates d r := by
+  constructor
+  · intro wf r
+    cases r <;> simp only [rules, not_exists, not_and, Classical.not_not, not_false_eq_true]
+    · intro kv hkv e he a ha; exact wf.symsOk kv hkv e he a ha
+    · exact wf.stackOk
+    · exact wf.tail.initOk
+    · exact wf.tail.initStackOk
+    · exact wf.tail.finalsOk
+    · exact wf.tail.modeOk
+  · intro h
+    refine ⟨?_, ?_, ⟨?_, ?_, ?_, ?_⟩⟩
+    · have := h .unknownInputSymbol
+      simp only [rules, not_exists, not_and, Classical.not_not] at this
+      exact this
+    · simpa [rules] using h .unknownStackSymbol
+    · simpa [rules] using h .badInitial
+    · simpa [rules] using h .badInitialStackSymbol
+    · simpa [rules] using h .badFinal
+    · simpa [rules] using h .badAcceptanceMode
+
+theorem validateRow_error (d : NPDA σ α γ) (paths : List (Option α × List (γ × List (σ × List γ))))
+    (e : Exn) (h : d.validateRow paths = .error e) :
+    ((∃ en ∈ paths, ∃ a, en.1 = some a ∧ a ∉ d.syms) ∧ e = .lib .invalidSymbolError) ∨
+    ((∃ en ∈ paths, ∃ g ∈ akeys en.2, g ∉ d.stackSyms) ∧ e = .lib .invalidSymbolError) := by
+  unfold validateRow at h
+  obtain ⟨en, hen, hg⟩ := firstErr_eq_error h
+  rcases Res.andThen_eq_error.mp hg with h0 | ⟨_, hg⟩
+  · left
+    cases ha : en.1 with
+    | none => rw [ha] at h0; cases h0
+    | some a =>
+      rw [ha] at h0
+      obtain ⟨hc, rfl⟩ := guardE_eq_error.mp h0
+      exact ⟨⟨en, hen, a, ha, by simpa using hc⟩, rfl⟩
+  · right
+    obtain ⟨g, hgk, hg'⟩ := firstErr_eq_error hg
+    obtain ⟨hc, rfl⟩ := guardE_eq_error.mp hg'
+    exact ⟨⟨en, hen, g, hgk, by simpa using hc⟩, rfl⟩
+
+theorem rules_correct : (rules : RuleSys (NPDA σ α γ) PdaRule).Correct validate where
+  ok_iff d := (validate_eq_ok d).trans (wf_iff d)
+  error_kind d e h := by
+    unfold validate at h
+    rcases Res.andThen_eq_error.mp h with h0 | ⟨ok0, h⟩
+    · obtain ⟨kv, hkv, hrow⟩ := firstErr_eq_error h0
+      have early : ∀ r' : PdaRule, (rules : RuleSys (NPDA σ α γ) PdaRule).stage r' < 0 →
+          ¬ rules.Violates d r' := by
+        intro r' hr'; simp [rules] at hr'
+      rcases validateRow_error d kv.2 e hrow with ⟨⟨en, hen, a, ha, hna⟩, rfl⟩ | ⟨⟨en, hen, g, hg, hng⟩, rfl⟩
+      · exact ⟨.unknownInputSymbol, ⟨kv, hkv, en, hen, a, ha, hna⟩, rfl, early⟩
+      · exact ⟨.unknownStackSymbol, ⟨kv, hkv, en, hen, g, hg, hng⟩, rfl, early⟩
+    simp only [firstErr_eq_ok, validateRow_eq_ok] at ok0
+    have n0a : ¬ rules.Violates d .unknownInputSymbol := by
+      simp only [rules, not_exists, not_and, Classical.not_not]
+      intro kv hkv en hen a ha; exact (ok0 kv hkv).1 en hen a ha
+    have n0b : ¬ rules.Violates d .nondeterministic := by simp [rules]
+    have n0c : ¬ rules.Violates d .unknownStackSymbol := by
+      simp only [rules, not_exists, not_and, Classical.not_not]
+      intro kv hkv en hen g hg; exact (ok0 kv hkv).2 en hen g hg
+    rcases pdaValidateTail_error _ _ _ _ _ _ e h with ⟨a, rfl⟩ | ⟨p0, a, rfl⟩ | ⟨p0, p1, a, rfl⟩ | ⟨p0, p1, p2, a, rfl⟩
+    · refine ⟨.badInitial, a, rfl, ?_⟩
+      intro r' hr'; cases r' <;> simp [rules, PdaRule.stage] at hr' <;> assumption
+    · have nI : ¬ rules.Violates d .badInitial := fun h => h p0
+      refine ⟨.badInitialStackSymbol, a, rfl, ?_⟩
+      intro r' hr'; cases r' <;> simp [rules, PdaRule.stage] at hr' <;> assumption
+    · have nI : ¬ rules.Violates d .badInitial := fun h => h p0
+      have nS : ¬ rules.Violates d .badInitialStackSymbol := fun h => h p1
+      refine ⟨.badFinal, a, rfl, ?_⟩
+      intro r' hr'; cases r' <;> simp [rules, PdaRule.stage] at hr' <;> assumption
+    · have nI : ¬ rules.Violates d .badInitial := fun h => h p0
+      have nS : ¬ rules.Violates d .badInitialStackSymbol := fun h => h p1
+      have nF : ¬ rules.Violates d .badFinal := by
+        simp only [rules, not_exists, not_and, Classical.not_not]; exact p2
+      refine ⟨.badAcceptanceMode, a, rfl, ?_⟩
+      intro r' hr'; cases r' <;> simp [rules, PdaRule.stage] at hr' <;> assumption
+
+end NPDA
+
 end AV
